@@ -586,6 +586,9 @@ O_CONSUMERS = [
     ("cmp", ("int", "float"), "", "{v} > 1", "int"),
     ("if", ("int", "float"), "int res = 0; if ({v}) {{ res = 1; }} else {{ res = 2; }}", "res", "int"),
     ("if-noelse", ("int",), "int res = 5; if ({v}) {{ res = 1; }}", "res", "int"),
+    ("if-directly-after-store", ("int", "float"), "if ({v}) {{ x = x + 1.0; }}", "x", "float"),
+    ("if-else-directly-after-store", ("int",), "if ({v}) {{ x = x + 1.0; }} else {{ x = x - 1.0; }}", "x", "float"),
+    ("while-directly-after-store", ("int",), "while ({v}) {{ {v} = {v} - 1; x = x + 1.0; }}", "x", "float"),
     ("store", ("int", "float", "float4", "float3x3"), "{T} res = {v};", "res", None),
     ("assign", ("int", "float", "float4", "float3x3"), "{T} res; res = {v};", "res", None),
     ("compound", ("int", "float"), "{v} += 3;", "{v}", None),
@@ -624,6 +627,9 @@ O_CONSUMERS = [
     ("field-read-f", ("P",), "", "{v}.hb + 1.0", "float"),
     ("field-write", ("P",), "{v}.fa = 9;", "{v}.fa + 1", "int"),
     ("struct-store", ("P",), "", "gp({v})", "int"),
+    ("alias-source-read-after-field-write", ("P",), "{v}.fa = 9;", "ps.fa * 100 + ps2.fa * 10 + {v}.fa", "int"),
+    ("alias-source-read-after-elem-write", ("int[3]",), "{v}[1] = 9;", "arr[1] * 100 + arr2[1] * 10 + {v}[1]", "int"),
+    ("alias-source-read-after-dyn-elem-write", ("int[3]",), "{v}[a - a] = 9;", "arr[0] * 100 + arr2[0] * 10 + {v}[0]", "int"),
     ("elem-read", ("int[3]",), "", "{v}[1]", "int"),
     ("elem-read-dyn", ("int[3]",), "", "{v}[a]", "int"),
     ("elem-write", ("int[3]",), "{v}[1] = 9;", "{v}[1] + {v}[0]", "int"),
@@ -1212,6 +1218,10 @@ N_EXTRA = [
     ("int g0;\nint g0;\nexport function f(int a) -> int { return a; }", "reject", "global-declared-twice"),
     ("export function f(int a, int a) -> int { return a; }", "reject", "parameter-declared-twice"),
     ("export function f(int a) -> int { int v = 1; int v = 2; return v; }", "reject", "same-block-twice"),
+    ("function g(int, int b) -> int { int b = 7; return b; }\nexport function f(int a) -> int { return g(a, a); }", "reject", "parameter-after-unnamed-parameter-redeclared"),
+    ("function g(int, float, int b) -> int { { int b = 7; } return b; }\nexport function f(int a) -> int { return g(a, 1.5, a); }", "reject", "parameter-after-two-unnamed-parameters-redeclared-in-block"),
+    ("function g(int b, int) -> int { for (int b = 0; b < 2; ++b) { } return b; }\nexport function f(int a) -> int { return g(a, a); }", "reject", "parameter-before-unnamed-parameter-redeclared-in-for"),
+    ("function g(int, int b) -> int { int c = b + 1; return c; }\nexport function f(int a) -> int { return g(a, a); }", "accept", "unnamed-parameter-then-named-used"),
     ("export function f(int a) -> int { for (int i = 0; i < 2; ++i) { int i = 5; a = a + i; } return a; }", "reject", "body-redeclares-for-header-variable"),
     ("export function f(int a) -> int { for (int i = 0; i < 2; ++i) { a = a + 1; } for (int i = 0; i < 2; ++i) { a = a + 2; } return a; }", "accept", "sibling-for-loops-reuse-header-name"),
 ]
@@ -1423,8 +1433,63 @@ def x_mask_cases(tier):
                    "units": [{"funcs": [], "entry": "f", "inputs": []}]}
 
 
+def x_two_swizzle_cases(tier):
+    """Several swizzles in ONE program: it is rejected as soon as one of them is invalid, wherever the others stand."""
+    good = ["x", "yx", "rg", "y"]
+    bad = ["xg", "z", "rb", "q", "xyz"]          # on a float2: mixed sets, component beyond the size, foreign letter, too long
+    forms = {
+        "two-statements": "float2 a = float2(v.{m1}, 1.0); return a.x + v.{m2};",
+        "one-expression": "return v.{m1} + v.{m2};",
+        "write-then-read": "v.{m1} = v.{m2}; return v.x;",
+        "chained": "return v.{m1}.{m2};",
+        "in-call-and-return": "float t = h(v.{m1}); return t + v.{m2};",
+        "three": "float t = v.{m1}; float u = v.x; return t + u + v.{m2};",
+    }
+    scal = lambda m: m if len(m) == 1 else m + ".x"
+    for fname, tmpl in forms.items():
+        for m1 in good + bad:
+            for m2 in good + bad:
+                if fname == "write-then-read":
+                    if len(m1) != len(m2) or len(set(m1)) != len(m1):
+                        continue
+                    a1, a2 = m1, m2
+                elif fname == "chained":
+                    a1, a2 = m1, "x"
+                    if m2 not in ("x", "y", "z"):
+                        continue
+                    a2 = m2
+                    if m1 in good and len(m1) == 1:
+                        continue          # swizzle of a scalar: not this family's subject
+                else:
+                    a1, a2 = scal(m1), scal(m2)
+                ok = m1 in good and m2 in good
+                if fname == "chained":
+                    ok = m1 in good and "xyzw".index(m2) < len(m1)
+                src = "function h(float p) -> float { return p; }\nexport function f(float2 v) -> float { " + tmpl.format(m1=a1, m2=a2) + " }\n"
+                yield {"fam": "X", "expect": "accept" if ok else "reject", "src": src,
+                       "desc": f"swizzle;several;{fname};{'valid' if m1 in good else 'invalid'}-then-{'valid' if m2 in good else 'invalid'}", "why": f"masks {m1}, {m2} on float2",
+                       "units": [{"funcs": [], "entry": "f", "inputs": []}]}
+
+
+def x_spelling_cases(tier):
+    """Index constants whose SPELLING could be mistaken: hexadecimal numbers ending in f / F, in e / E, with l / u look-alikes."""
+    for text, val in (("0xf", 15), ("0xF", 15), ("0x1f", 31), ("0x1F", 31), ("0x2f", 47), ("0x3F", 63), ("0x0f", 15), ("0x1e", 30), ("0x2E", 46), ("0xfe", 254), ("0x10", 16), ("0x01", 1), ("0x02", 2),
+                      ("0x00f", 15), ("0x1", 1), ("0x3", 3), ("0xb", 11), ("0x1b", 27), ("0x2d", 45), ("01", 1), ("07", 7), ("010", 8), ("03", 3)):
+        for name, decl, chain, size, et, zero in (("array", "int[4] g;\n", "g[{c}]", 4, "int", "0"), ("array2", "int[2][3] g;\n", "g[{c}][0]", 2, "int", "0"), ("array2-inner", "int[2][3] g;\n", "g[1][{c}]", 3, "int", "0"),
+                                                  ("vector", "float4 g;\n", "g[{c}]", 4, "float", "0.0"), ("matrix-col", "float3x3 g;\n", "g[0][{c}]", 3, "float", "0.0")):
+            ok = 0 <= val < size
+            for rw in ("read", "write"):
+                ch = chain.format(c=text)
+                body = f"return {ch};" if rw == "read" else f"{ch} = {zero}; return {zero};"
+                yield {"fam": "X", "expect": "accept" if ok else "reject", "src": decl + f"export function f(int i) -> {et} {{ {body} }}\n",
+                       "desc": f"bounds;spelling;{name};{'in' if ok else 'above'}-range;{'hex-ends-in-f' if text.lower().endswith('f') else 'hex' if 'x' in text else 'octal'};{rw}", "why": f"constant {text} = {val}",
+                       "units": [{"funcs": [], "entry": "f", "inputs": []}]}
+
+
 @family("X")
 def fam_X(tier):
+    yield from x_two_swizzle_cases(tier)
+    yield from x_spelling_cases(tier)
     yield from x_bounds_cases(tier)
     yield from x_nested_bounds_cases(tier)
     yield from x_huge_constant_cases(tier)
@@ -1624,6 +1689,49 @@ def c_literal_site_case(tn, how):
             "units": [{"funcs": [f], "entry": "f", "inputs": [({"a": 1}, {})]}]}
 
 
+def c_recursion_aggregate_case(kind, mutual):
+    """An aggregate local (array of arrays, struct with an array member, array of vectors ...) is filled before the recursive call
+    and read after it: every activation has its own."""
+    A22 = ("arr", "int", (2, 2))
+    decl, cell = {
+        "array2": (("decl", A22, "loc", None), lambda i, j: IDX(IDX(V("loc"), i), j)),
+        "array3": (("decl", ("arr", "int", (2, 2, 2)), "loc", None), lambda i, j: IDX(IDX(IDX(V("loc"), i), j), 1)),
+        "struct-with-array": (("decl", ("struct", "RA"), "loc", None), lambda i, j: IDX(FLD(V("loc"), "cells"), B("+", B("*", lit(i), lit(2)), lit(j)) if False else (i * 2 + j))),
+        "struct-with-struct": (("decl", ("struct", "RB"), "loc", None), lambda i, j: FLD(FLD(V("loc"), "in" + str(i)), "c" + str(j))),
+        "array-of-vectors": (("decl", ("arr", VT("int", 2), (2,)), "loc", None), lambda i, j: IDX(IDX(V("loc"), i), j)),
+        "array1": (("decl", ("arr", "int", (4,)), "loc", None), lambda i, j: IDX(V("loc"), i * 2 + j)),
+    }[kind]
+    fill = [ASG(cell(i, j), B("+", B("*", V("n"), lit(10)), lit(i * 2 + j))) for i in (0, 1) for j in (0, 1)]
+    digest = functools.reduce(lambda a, b: B("+", a, b), [cell(i, j) for i in (0, 1) for j in (0, 1)])
+    other = "hrec" if mutual else "rec"
+    body = [decl] + fill + [("decl", "int", "sub", lit(0)), ("if", B(">", V("n"), lit(0)), ("block", [ASG(V("sub"), ("call", other, [B("-", V("n"), lit(1))]))]), None),
+                            ("ret", B("+", B("*", V("sub"), lit(100)), digest))]
+    helpers = [func("rec", [("int", "n")], "int", body, export=False)]
+    if mutual:
+        helpers.append(func("hrec", [("int", "n")], "int", [("ret", B("+", ("call", "rec", [V("n")]), lit(1)))], export=False))
+    f = func("f", [("int", "a")], "int", [("ret", ("call", "rec", [V("a")]))])
+    structs = [("RA", [(("arr", "int", (4,)), "cells"), ("int", "k")]), ("RC", [("int", "c0"), ("int", "c1")]), ("RB", [(("struct", "RC"), "in0"), (("struct", "RC"), "in1")])]
+    return {"fam": "C", "desc": f"shape=recursion-aggregate-local-kept;local={kind};{'mutual' if mutual else 'direct'}", "prog": {"funcs": helpers, "structs": structs},
+            "units": [{"funcs": [f], "entry": "f", "inputs": [({"a": v}, {}) for v in (0, 1, 2)]}]}
+
+
+def c_arity_overload_case(which):
+    """Overloads of one name with DIFFERENT parameter counts: the argument count selects, however cheaply a shorter or longer one
+    would match a prefix of the arguments."""
+    blend2 = func("blend", [("float", "u"), ("float", "w")], "float", [("ret", B("+", B("*", V("u"), lit(100.0)), V("w")))], export=False)
+    blend3 = func("blend", [("float", "u"), ("float", "w"), ("float", "t")], "float", [("ret", B("+", B("+", B("*", V("u"), lit(1000.0)), B("*", V("w"), lit(10.0))), V("t")))], export=False)
+    blend1 = func("blend", [("int", "u")], "float", [("ret", B("*", V("u"), lit(2.0)))], export=False)
+    call = {"three-with-conversion": ("call", "blend", [V("x"), V("y"), lit(1)]), "three-exact": ("call", "blend", [V("x"), V("y"), V("x")]), "two-exact": ("call", "blend", [V("x"), V("y")]),
+            "two-with-conversion": ("call", "blend", [V("a"), V("y")]), "one-exact": ("call", "blend", [V("a")]), "one-with-conversion": ("call", "blend", [V("x")]),
+            "all-three-sites": B("+", B("+", ("call", "blend", [V("x"), V("y"), lit(1)]), ("call", "blend", [V("a"), V("y")])), ("call", "blend", [V("a")]))}[which]
+    f = func("f", [("int", "a"), ("float", "x"), ("float", "y")], "float", [("ret", call)])
+    out = []
+    for order in ((blend1, blend2, blend3), (blend3, blend2, blend1), (blend2, blend3, blend1)):
+        out.append(order)
+    return [{"fam": "C", "desc": f"shape=overloads-of-different-arity;{which};declared={k}", "prog": {"funcs": list(order)},
+             "units": [{"funcs": [f], "entry": "f", "inputs": [({"a": 3, "x": 6.0, "y": 2.0}, {})]}]} for k, order in enumerate(out)]
+
+
 C_OVERLOAD_SETS = {
     "vectors": ["int2", "float2", "float3", "float4"], "matrices-and-vectors": ["float3x3", "float4x4", "float3", "float4"],
     "scalars-and-vectors": ["int", "float", "int2", "float2"], "aggregates": ["PS", "int[3]", "float3", "int"],
@@ -1727,6 +1835,11 @@ def fam_C(tier):
     for tn in ("int", "float"):
         for how in ("loop", "helper-called-twice", "recursion"):
             yield (c_literal_site_case, tn, how)
+    for kind in ("array2", "array3", "struct-with-array", "struct-with-struct", "array-of-vectors", "array1"):
+        for mutual in (False, True):
+            yield (c_recursion_aggregate_case, kind, mutual)
+    for which in ("three-with-conversion", "three-exact", "two-exact", "two-with-conversion", "one-exact", "one-with-conversion", "all-three-sites"):
+        yield from c_arity_overload_case(which)
     for setname in C_OVERLOAD_SETS:
         for order in itertools.permutations(range(4)):
             if tier == "quick" and order[0] > order[-1] and setname != "vectors":
@@ -1927,6 +2040,16 @@ def v_misc_units(tier):
                 add([(T, "v"), (T, "w")], T, B("%", V("w"), V("v")), [({"v": a, "w": b}, {})], "vector%vector;int")
             add([(T, "v"), (T, "w")], T, B("&&", V("v"), V("w")), [({"v": [0] + a[1:] if c == "int" else [0.0] + a[1:], "w": b}, {})], f"vector&&vector;{c}")
             add([(T, "v"), (T, "w")], T, B("||", V("v"), V("w")), [({"v": [0] * n if c == "int" else [0.0] * n, "w": [0] + b[1:] if c == "int" else [0.0] + b[1:]}, {})], f"vector||vector;{c}")
+    M3_ = ("mat", "float", 3, 3)
+    for sv in (3.0, 7.0, 10.0, 49.0):
+        add([(M3_, "m"), ("float", "s")], M3_, B("/", V("m"), V("s")), [({"m": [[1.0, 2.0, 3.0], [7.0, 49.0, 5.0], [9.0, 10.0, 98.0]], "s": sv}, {})], "matrix/scalar;not-a-power-of-two")
+        add([(VT("float", 3), "v"), ("float", "s")], VT("float", 3), B("/", V("v"), V("s")), [({"v": [1.0, 49.0, 10.0], "s": sv}, {})], "vector/scalar;not-a-power-of-two")
+    for n_ in (2, 3):
+        IV = VT("int", n_)
+        vals = [2, 4, 7][:n_]
+        for nm_, e_ in (("v*s/t", B("/", B("*", V("v"), V("s")), V("t"))), ("v/s*t", B("*", B("/", V("v"), V("s")), V("t"))), ("v*s*t", B("*", B("*", V("v"), V("s")), V("t"))),
+                        ("s*v/t", B("/", B("*", V("s"), V("v")), V("t"))), ("v/s/t", B("/", B("/", V("v"), V("s")), V("t")))):
+            add([(IV, "v"), ("int", "s"), ("int", "t")], IV, e_, [({"v": vals, "s": 3, "t": 2}, {}), ({"v": [-x for x in vals], "s": 3, "t": 2}, {})], f"int-vector-scaling-chain;{nm_}")
     # both operands the same variable
     for n in (2, 3, 4):
         T = VT("float", n)
@@ -2739,6 +2862,12 @@ def g_cases():
     for name, e in (("minus-negative", B("-", V("a"), lit(-3))), ("plus-negative", B("+", V("a"), lit(-3))), ("times-negative", B("*", V("a"), lit(-2))),
                     ("negative-first", B("+", lit(-3), V("a"))), ("compare-negative", B("<", V("a"), lit(-1))), ("positive-signed", B("-", V("a"), SP("int", 4, "+4")))):
         add(f"signed-literal:{name}", [T(e)])
+    # operations on literals only (whatever folds them must fold like the VM computes them)
+    for name, e in (("neg-div-pos", B("/", lit(-7), lit(2))), ("pos-div-neg", B("/", lit(7), lit(-2))), ("neg-div-neg", B("/", lit(-9), lit(-4))), ("difference-div", B("/", B("-", lit(1), lit(8)), lit(2))),
+                    ("product-div", B("/", B("*", lit(-3), lit(5)), lit(4))), ("div-then-mul", B("*", B("/", lit(-7), lit(2)), lit(2))), ("pos-div-pos", B("/", lit(9), lit(4))),
+                    ("float-div", B("/", lit(7.0), lit(-2))), ("mixed-sum", B("+", B("/", lit(-7), lit(2)), lit(0.5))), ("mod-pos", B("%", lit(9), lit(4))), ("compare-folded", B("<", B("/", lit(-7), lit(2)), lit(-3)))):
+        add(f"literal-operation:{name}", [T(B("+", e, V("a")))] if name not in ("float-div", "mixed-sum") else [], "int" if name not in ("float-div", "mixed-sum") else "float",
+            None if name not in ("float-div", "mixed-sum") else B("+", e, V("a")))
     # for-header variants
     inc = ASG(V("i"), B("+", V("i"), lit(1)))
     add("for-no-init", [("decl", "int", "i", lit(0)), ("for", None, B("<", V("i"), lit(3)), ("pre", "++", "i"), ("block", [T(V("i"))]))])
